@@ -150,13 +150,30 @@ LIBC_TABLE_C05 = {
 
 
 def under_random_guard(f, n):
-    """True if call n sits in the then-branch of an `if` whose condition tests EXT_RANDOM_*."""
-    cur = n
-    for a in f.ancestors(n):
-        if a["k"] == "IfStmt" and a["c"][1] is not None and _contains(a["c"][1], cur):
-            for x in walk(a["c"][0]):
-                if x["k"] == "DeclRefExpr" and x.get("dk") == "Enum" and x["n"] in RANDOM_BITS:
-                    return x["n"]
+    """Name of an EXT_RANDOM_* bit if call n is only reachable while some such bit is set: with every test of the
+    form `X & EXT_RANDOM_*` decided false the call is unreachable (if / ternary / early return alike; the tested
+    word may be a local copy of the extensions)."""
+    from .prog import edpe_blocks, strip, const_value
+    bits = set()
+
+    def off(t):
+        t = strip(t)
+        if t is not None and t["k"] == "BinaryOperator" and t["op"] == "&":
+            for a in t["c"]:
+                for x in walk(a):
+                    if x["k"] == "DeclRefExpr" and x.get("dk") == "Enum" and x["n"] in RANDOM_BITS:
+                        bits.add(x["n"])
+                        return False
+        return None
+    pos = f.cfg.positions()
+    z = n
+    while z is not None and z.get("i") not in pos:
+        z = f.parent(z)
+    if z is None:
+        return None
+    blocks = edpe_blocks(f, "?none", 0, extra_decide=off)
+    if bits and pos[z["i"]][0] not in blocks:
+        return sorted(bits)[0]
     return None
 
 
